@@ -82,6 +82,8 @@ pub struct HistResult {
     pub nontrivial: bool,
     pub ops_hash: u64,
     pub latent: Vec<String>,
+    /// (model state hash, snapshot hash) after the last op, before the end-of-history probes.
+    pub end_key: (u64, u64),
 }
 
 pub fn ops_hash(cfg_n: usize, cfg_cap: usize, ops: &[Op]) -> u64 {
@@ -347,6 +349,7 @@ impl Runner<'_> {
                 }
             }
         }
+        let end_key = (s.m.state_hash(), snap_hash(&s.g.snapshot()));
         if violation.is_none() {
             let mut ctx = Ctx { c: self.c, rng: &mut rng, labels: labels.clone() };
             if let Some(msg) = mon.finish(&mut s, &mut ctx) {
@@ -362,7 +365,7 @@ impl Runner<'_> {
         let nontrivial = mon.nontrivial(&st);
         let ops = std::mem::take(&mut s.ops);
         let h = ops_hash(n, cap, &ops);
-        HistResult { stats: st, violation, ops, nontrivial, ops_hash: h, latent }
+        HistResult { stats: st, violation, ops, nontrivial, ops_hash: h, latent, end_key }
     }
 }
 
